@@ -5,8 +5,9 @@ on both sides, every field of every payload struct except lifetimes and an expli
 function rebuilds each payload from the like-named field of its input; CanonicalType has one constructor.
 The laws over all type pairs are not decided.
 """
+import re
 from ..facts import callee, op_place, strip_generics
-from ..flow import Defs, backward_slice, rv_operands
+from ..flow import Defs, backward_slice, rv_operands, slice_calls
 from ..tables import enum_switches, switch_arms
 
 LEVEL = 'other'
@@ -136,10 +137,16 @@ def r1_field_coverage(ctx):
         ctx.ob('C17.R1', 'catch-all-false|%s' % fn.split('::')[-1], bool(falses), b.loc(), 'a `false` result exists for mismatching variants: %s' % bool(falses), nontrivial=False)
 
 
+# combinators that can discard (part of) the value they are applied to
+DROPPERS = {'filter', 'filter_map', 'skip', 'skip_while', 'take', 'take_while', 'step_by', 'retain', 'retain_mut', 'truncate', 'dedup', 'dedup_by',
+            'dedup_by_key', 'pop', 'take_if', 'xor', 'find', 'find_map', 'nth', 'last', 'drain', 'split_off'}
+
+
 def r2_field_preservation(ctx):
     ctx.rule('C17.R2', 'P8 field preservation: in bind_generic_type_parameters and _canonicalize every payload struct that is rebuilt takes each '
              'field from a value derived from the like-named field of a payload of the same struct (copied or recursed into); lifetime '
-             'fields and the reasoned exemptions excepted; in the arm for variant V the rebuilt Type is variant V.')
+             'fields and the reasoned exemptions excepted; the value does not pass through a discarding combinator (filter/skip/take/..); '
+             'in the arm for variant V the rebuilt Type is variant V.')
     for fn in REBUILD_FUNCS:
         bodies = ctx.fb.bodies_of_item(CR, fn)
         if not ctx.need('C17.R2', fn, bodies):
@@ -168,6 +175,10 @@ def r2_field_preservation(ctx):
                                 srcs |= set(place_field_reads(q))
                         srcs |= set(place_field_reads(pl))
                     ok = (s, fname) in srcs
+                    droppers = sorted({c.split('::')[-2] + '::' + c.split('::')[-1] for c, _, _ in slice_calls(sl) if c.split('::')[-1] in DROPPERS}) if pl is not None else []
+                    if droppers:
+                        ctx.ob('C17.R2', 'not-filtered|%s|%s.%s' % (fn.split('::')[-1], s.split('::')[-1], fname), False, b.loc(bb, st),
+                               'rebuilt %s.%s passes through %s: part of the input value can be dropped on the way' % (s.split('::')[-1], fname, droppers))
                     # closures read their captured upvars: accept a slice that reaches a closure upvar / argument when the closure body itself
                     # reads the field (FunctionPointerInput inside `.map(|input| ..)`)
                     ctx.ob('C17.R2', 'preserved|%s|%s.%s' % (fn.split('::')[-1], s.split('::')[-1], fname), ok, b.loc(bb, st),
@@ -344,6 +355,62 @@ def r6_render(ctx):
     ctx.floor('C17.R6', 'format arguments inside the renderer (positive control)', n, 8)
 
 
+def r7_length_before_zip(ctx):
+    ctx.rule('C17.R7', 'P1: in the structural comparisons every Iterator::zip over two argument/element/input lists is dominated by an equality '
+             'test (== / != on usize) of two `len()` results whose "different" edge cannot reach the zip: zip stops at the shorter list, so without '
+             'the arity test trailing elements of the longer side would be ignored (`Vec<T>` would match `Vec<u8, A>`).')
+    n = 0
+    LEN = ('alloc::vec::Vec::len', 'core::slice::{impl [T]}::len')
+    for fn in CMP_FUNCS:
+        for b in ctx.fb.bodies_of_item(CR, fn):
+            defs = Defs(b)
+            lens = {}
+            for bb, t in b.calls():
+                if callee(t) in LEN and not t['dest'].get('p'):
+                    lens[t['dest']['l']] = t['aty'][0]
+            tests = []   # (switch block, target taken when the lengths differ, element types)
+            for bb, j, st in b.all_assigns():
+                rv = st['rv']
+                if rv['k'] != 'bin' or rv['bop'] not in ('Eq', 'Ne'):
+                    continue
+                srcs = []
+                for o in (rv['a'], rv['b']):
+                    pl = op_place(o)
+                    if pl is None:
+                        continue
+                    _, locs = backward_slice(b, pl['l'], defs, through_calls=False)
+                    srcs.append({lens[l] for l in locs | {pl['l']} if l in lens})
+                if len(srcs) != 2 or not srcs[0] or not srcs[1]:
+                    continue
+                w = b.term(bb)
+                if not w or w['k'] != 'switch' or 'enum' in w:
+                    continue
+                zero = [tg for v, tg in w['ts'] if v == '0']
+                if not zero:
+                    continue
+                differ = w['else'] if rv['bop'] == 'Ne' else zero[0]
+                tests.append((bb, differ, srcs[0] | srcs[1]))
+            for bb, t in b.calls():
+                if callee(t) != 'core::iter::traits::iterator::Iterator::zip':
+                    continue
+                n += 1
+                elem = re.sub(r"^.*Iter<'_, |^&alloc::vec::Vec<|>$", '', t['aty'][0])
+                ok = False
+                why = 'no dominating length equality test'
+                for tb, differ, tys in tests:
+                    if not b.dominates(tb, bb) or not any(elem in ty for ty in tys):
+                        continue
+                    if bb in b.reachable(differ, avoid=[tb]):
+                        why = 'the zip is reachable although the lengths differ (test at %s)' % b.loc(tb)
+                        continue
+                    ok = True
+                    why = 'lengths compared for equality at %s; the zip is unreachable when they differ' % b.loc(tb)
+                    break
+                ctx.ob('C17.R7', 'arity|%s|zip#%d' % (b.nid.replace(T, ''), sum(1 for x in ctx.obs if x.key.startswith('arity|%s|' % b.nid.replace(T, ''))) + 1),
+                       ok, b.loc(bb, t), 'zip over two lists of %s: %s' % (elem.split('::')[-1], why))
+    ctx.floor('C17.R7', 'zip sites in the structural comparisons', n, 6)
+
+
 def check(ctx):
     r4_bindings_compared_by_equality(ctx)
     r5_no_shortcut_around_recursion(ctx)
@@ -351,3 +418,4 @@ def check(ctx):
     r1_field_coverage(ctx)
     r2_field_preservation(ctx)
     r3_canonical_constructor(ctx)
+    r7_length_before_zip(ctx)
